@@ -155,11 +155,30 @@ def r2(ctx):
         ctx.fail(rule, "anchor-lost", str(e))
         return
     O = X.Origins(b, P)
-    ats = [cs for cs in b.calls() if cs.name == "at" and cs.fn and cs.fn["def"].endswith("Location::at")]
-    descs = [tuple(F.rd(a) for a in O.call_args(cs)) for cs in ats]
-    detail = {"Location::at_calls": [{"at": c.loc(), "args": d} for c, d in zip(ats, descs)]}
-    if len(ats) < 2:
-        ctx.fail(rule, "anchor-lost:Location::at", "expected Location::at at the Text and the Separator constructor, found %d" % len(ats),
+    # the location each token constructor is given (the value may be computed once and shared by both constructors)
+    ats = []
+    descs = []
+    kinds = set()
+    for bb, j, st in b.all_statements():
+        rv = st.get("rv") or {}
+        if st["k"] == "assign" and rv.get("k") == "agg" and rv.get("adt", "").endswith("Token") and rv.get("variant") in ("Text", "Separator"):
+            e = O.operand(rv["ops"][0], bb, j)
+            while e[0] in ("ref", "deref", "mut"):
+                e = e[1]
+            if e[0] == "call" and (e[1] or "").endswith("Location::at"):
+                kinds.add(rv["variant"])
+                descs.append(tuple(F.rd(a) for a in e[3]))
+
+                class _Site:
+                    def __init__(self, l):
+                        self._l = l
+
+                    def loc(self):
+                        return self._l
+                ats.append(_Site(span_loc(st["sp"])))
+    detail = {"constructors": [{"at": c.loc(), "location_args": d} for c, d in zip(ats, descs)]}
+    if kinds != {"Text", "Separator"}:
+        ctx.fail(rule, "anchor-lost:Location::at", "expected Location::at at the Text and the Separator constructor, found it at %s" % sorted(kinds),
                  "%s:%d" % (b.file, b.line), detail)
     elif len(set(descs)) != 1:
         ctx.fail(rule, "constructors-differ", "Token::Text and Token::Separator compute their location differently: %s" % descs,
